@@ -7,7 +7,7 @@ All theorems are about the model `JanetModel.Wait` (Wait/Model.lean), for ALL se
 fiber, of the kernel (stream readiness, process exit), of the clock, and the loop phases, in any order.
 The model is parameterised by `Cfg` = which generation / status checks the C source has at which site; the check
 regenerates `Gen.Wait.cfg` from the current source and kernel-checks `Gen.Wait.cfg.allChecked = true` separately
-(on the pinned tree it is false: `popSkipsStale` and `closeChecks` are missing, see the two `*_unchecked` witnesses below).
+(on the originally pinned tree it was false: `popSkipsStale` and `closeChecks` are missing, see the two `*_unchecked` witnesses below).
 -/
 namespace JanetModel.Props.C07
 open JanetModel.Wait
@@ -147,6 +147,57 @@ theorem deadline_scoped (cfg : Cfg) (hc : cfg.allChecked = true) (w : World) (to
         · exact ht
         · subst ht; exact absurd htf (Ne.symm hf)
     · exact ⟨rfl, fun t ht _ => ht⟩
+
+theorem popLive_of_any_live (w : World) (l : List Pending) (h : l.any (fun e => live w e.fiber e.schedId) = true) :
+    ∃ e rest, popLive true w l = (some e, rest) := by
+  induction l with
+  | nil => simp at h
+  | cons x xs ih =>
+    by_cases hl : live w x.fiber x.schedId = true
+    · exact ⟨x, xs, by simp [popLive, hl]⟩
+    · have hx : xs.any (fun e => live w e.fiber e.schedId) = true := by simpa [hl] using h
+      obtain ⟨e, rest, he⟩ := ih hx
+      exact ⟨e, rest, by simp [popLive, hl, he]⟩
+
+/-- ★ a select whose give clause is judged "ready" (room in the channel, or a LIVE pending reader) completes at once and
+registers nothing: the fiber does not stay behind as a pending writer.  (With `hasReaderChecks = false` — any queued reader
+entry counts — this fails: see `select_give_on_stale_readers_registers_when_unchecked`.) -/
+theorem immediate_select_give_registers_nothing (cfg : Cfg) (hc : cfg.allChecked = true) (w : World) (f c : Nat) (x : Val)
+    (hready : selectGiveReady cfg w c = true) :
+    (chanPush cfg w f c x true).2 = false ∧ ((chanPush cfg w f c x true).1.chans c).wp = (w.chans c).wp := by
+  have hps : cfg.pushSkipsStale = true := (allChecked_fields hc).2.2.1
+  have hhr := allChecked_hasReader hc
+  unfold chanPush
+  rw [hps]
+  cases hp : popLive true w (w.chans c).rp with
+  | mk o rest =>
+    cases o with
+    | some r =>
+      simp only
+      refine ⟨trivial, ?_⟩
+      unfold schedule
+      split <;> simp
+    | none =>
+      simp only
+      have hroom : (w.chans c).items.length < (w.chans c).limit := by
+        simp only [selectGiveReady, hasReader, hhr, if_true, Bool.or_eq_true, decide_eq_true_eq] at hready
+        rcases hready with h | h
+        · exact h
+        · obtain ⟨e, rest', he⟩ := popLive_of_any_live w _ h
+          rw [he] at hp
+          cases hp
+      have : ¬ (((w.chans c).items ++ [x]).length > (w.chans c).limit) := by
+        simp only [List.length_append, List.length_singleton]; omega
+      rw [if_neg this]
+      simp
+
+/-- witness for a tree whose `janet_channel_has_reader` does not test staleness: channel 0 (unbuffered) holds one abandoned
+reader entry; the select give of fiber 2 is judged ready, "completes", and yet fiber 2 stays registered as pending writer -/
+theorem select_give_on_stale_readers_registers_when_unchecked :
+    let cfg := { Cfg.full with hasReaderChecks := false }
+    let w := run cfg init [.take 1 0 true, .cancel 1 (.err 2), .run]
+    selectGiveReady cfg w 0 = true ∧ (chanPush cfg w 2 0 (.kw 7) true).2 = true ∧
+      ((chanPush cfg w 2 0 (.kw 7) true).1.chans 0).wp.length = 1 := by decide
 
 /-! ### The pinned tree: two sites lack the generation check — witnesses (replayed on the implementation by the check) -/
 
